@@ -16,6 +16,11 @@ func (kgraph *KVGraph) AddGraph(graph string) error {
 		return err
 	}
 
+	if !kgraph.kv.HasKey(GraphKey(graph)) {
+		//remove what an interrupted DeleteGraph of this name may have left behind
+		kgraph.clearGraph(graph)
+	}
+
 	kgraph.ts.Touch(graph)
 	err = kgraph.setupGraphIndex(graph)
 	if err != nil {
@@ -28,6 +33,18 @@ func (kgraph *KVGraph) AddGraph(graph string) error {
 func (kgraph *KVGraph) DeleteGraph(graph string) error {
 	kgraph.ts.Touch(graph)
 
+	//the graph stops existing first: if the delete is interrupted, what is
+	//left can not be reached and is removed when the name is used again
+	graphKey := GraphKey(graph)
+	kgraph.kv.Delete(graphKey)
+
+	kgraph.clearGraph(graph)
+
+	return nil
+}
+
+// clearGraph deletes the elements and indices stored for `graph`
+func (kgraph *KVGraph) clearGraph(graph string) {
 	eprefix := EdgeListPrefix(graph)
 	kgraph.kv.DeletePrefix(eprefix)
 
@@ -40,12 +57,7 @@ func (kgraph *KVGraph) DeleteGraph(graph string) error {
 	dprefix := DstEdgeListPrefix(graph)
 	kgraph.kv.DeletePrefix(dprefix)
 
-	graphKey := GraphKey(graph)
-	kgraph.kv.Delete(graphKey)
-
 	kgraph.deleteGraphIndex(graph)
-
-	return nil
 }
 
 // Graph obtains the gdbi.DBI for a particular graph
